@@ -95,7 +95,7 @@ def parse_template(text):
                         segs.append(("text", "\n".join(cur_text)))
                         cur_text = []
                     segs.append(("include", rest.split()))
-                elif word in ("fn", "item"):
+                elif word in ("fn", "item", "expect-body"):
                     if cur_text:
                         segs.append(("text", "\n".join(cur_text)))
                         cur_text = []
@@ -119,7 +119,7 @@ def parse_template(text):
                     d.derive_add += rest.split()
                 elif word == "derive-":
                     d.derive_del += rest.split()
-                elif word in ("requires", "ensures", "decreases", "entry", "exit", "recommends"):
+                elif word in ("requires", "ensures", "decreases", "entry", "exit", "recommends", "body"):
                     cur_sec = word
                     d.sections.setdefault(cur_sec, [])
                     if rest:
@@ -283,6 +283,11 @@ def clean_attrs(text, log):
     return t3
 
 
+def strip_comments(text):
+    m = rs.mask(text)
+    return "".join(c if (m[i] == c or c == '"') else " " for i, c in enumerate(text))
+
+
 def keep_tags(clause_text):
     """[[Cxx:name]] → /*[[Cxx:name]]*/ so that it survives as a comment."""
     return TAG_RE.sub(lambda m: "/*[[%s:%s]]*/" % (m.group(1), m.group(2)), clause_text)
@@ -384,6 +389,9 @@ class Emitter:
             tail = sig[pc + 1:].strip()
             ret = tail[2:].strip() if tail.startswith("->") else None
 
+        if assumed and d.opts.get("nobody"):
+            body = "{ unimplemented!() }"
+            log.append("X1 assumed declaration: body not emitted (it does not type-check outside the crate); only the signature and the assumed contract are used")
         # ---- splice ghost text into the body (X7), back to front
         if not assumed:
             body = self.splice(body, d, log, fp.name)
@@ -402,7 +410,10 @@ class Emitter:
         out.append("/*@fn-begin %s*/" % qual)
         if assumed:
             out.append("#[verifier::external_body]")
-        out.append("%sfn %s%s(%s)%s" % (head, name, fp.generics, params, retdecl))
+        generics = d.opts.get("generics", fp.generics)
+        if generics != fp.generics:
+            log.append("X6 generics of the enclosing impl moved onto the function: " + generics)
+        out.append("%sfn %s%s(%s)%s" % (head, name, generics, params, retdecl))
         if fp.where:
             out.append("    " + fp.where)
         for secname in ("requires", "ensures", "decreases"):
@@ -494,6 +505,15 @@ class Emitter:
                     payload.opts["assumed"] = True
                     payload.opts["proved_in"] = origin
                 out.append(self.emit_fn(payload))
+            elif kind == "expect-body":
+                d = payload
+                src = self.source(d.file)
+                it = src.find_one(*d.path)
+                body = src.text[it.body_open:it.body_close + 1]
+                want = "\n".join(d.sections.get("body", []))
+                if rs.norm(strip_comments(body)) != rs.norm("{" + want + "}"):
+                    raise LostAnchor("X5 guard: body of %s is no longer the expected one-liner `%s` (found `%s`): loops over it cannot be inlined" % (" :: ".join(d.path), want.strip(), " ".join(body.split())))
+                self.items.append(dict(file=d.file, path=" :: ".join(d.path), rules=["X5 guard: body equals the expected accessor one-liner"], sha256=hashlib.sha256(body.encode()).hexdigest()[:16]))
             elif kind == "include":
                 unit = payload[0]
                 if unit in self.included:
@@ -524,6 +544,8 @@ verus! {
 // X4: crate::HashMap/HashSet (Fx-hashed) -> std HashMap/HashSet (abstract map/set, arbitrary iteration order)
 pub type HashMap<K, V> = std::collections::HashMap<K, V>;
 pub type HashSet<T> = std::collections::HashSet<T>;
+// X4: SmallHashSet (vec_collections::VecSet, a sorted small vector) -> std HashSet (abstract finite set, arbitrary iteration order)
+pub type SmallHashSet<T> = std::collections::HashSet<T>;
 // X3: the unit is verified once with CHECKS = false (default build) and once with CHECKS = true
 pub const CHECKS: bool = @@CHECKS@@;
 
